@@ -121,13 +121,18 @@ func (e *Exec) touch(o *obj, op string, data uint64) {
 	e.epoch++
 }
 
-// Event records an observation of the harness or of a callback. It belongs to
-// the visible operation that precedes it in its thread (no scheduling point).
+// Event records an observation of the harness or of a callback. It is a
+// visible operation of its own (a scheduling point precedes it): what the user
+// observes - a call-back being entered, a call having returned - can be
+// separated from the synchronisation operation before it by any amount of
+// other threads' progress.
 func Event(s string) {
 	e := E
 	if e == nil || e.aborting {
 		return
 	}
+	e.point("event:"+s, func() bool { return true })
+	e.epoch++
 	e.Events = append(e.Events, s)
 	e.cur.hist = mix(e.cur.hist, hashStr(s), uint64(len(e.Events)))
 }
